@@ -1,0 +1,22 @@
+//go:build verif
+
+package influxql
+
+// VerifTrace, when non-nil, receives one event per reader / token-ring step.
+// It exists only in builds with the "verif" tag and is used by the
+// verification harness in /verif to observe the scanner's push-back rings.
+//
+// kind: "rd" raw rune read (a = ring n, b = ring i, ch = delivered rune)
+//
+//	"re" buffered re-read (a = new n)
+//	"un" rune unread (a = new n)
+//	"ts" token scanned from the lexer (a = ring n, b = ring i)
+//	"tb" token re-delivered from the ring (a = new n; the number of
+//	     Unscan calls since the previous token event is a+1-previous n)
+var VerifTrace func(kind string, a, b int, ch rune)
+
+func verifEv(kind string, a, b int, ch rune) {
+	if VerifTrace != nil {
+		VerifTrace(kind, a, b, ch)
+	}
+}
